@@ -72,9 +72,15 @@ def cases(tier):
     # multi-stage programs (stage alphabet of C12), incl. clones
     for names in (("A", "B"), ("D", "E"), ("C", "G"), ("B", "F", "A"), ("G", "G")):
         for via in ("direct", "clone"):
-            for pos in ("fresh", "after_solve", "after_edit"):
+            for pos in ("fresh", "after_solve", "after_edit", "after_update"):
                 spec = c12.build(names, [["continuity", 0], ["master_var_par"]], [via] * len(names))
                 out.append(dict(kind="multi", spec=spec, pos=pos, dev=list(names) + [via]))
+    # SplineMethod programs (integrator chains), alone and as a sub-stage next to a sampling method
+    from ..common import have_networkx
+    if have_networkx():
+        for meths in (["Spline"], ["Spline", "MS"], ["DC", "Spline"]):
+            for pos in ("fresh", "after_query", "after_solve", "after_edit", "twice"):
+                out.append(dict(kind="chain", methods=meths, pos=pos, dev=meths))
     return out
 
 
@@ -108,6 +114,23 @@ def run_case(case):
             tags += _trans.tags_of(d)
             r = hist.declare_spec(copy.deepcopy(d))
             ocp = r.ocp
+        elif case["kind"] == "chain":
+            import rockit
+            meths = case["methods"]
+            d = None; m = None
+            if len(meths) == 1:
+                ocp = rockit.Ocp(t0=0.2, T=1.4)
+                c12.chain_stage(ocp, meths[0], True)
+            else:
+                ocp = rockit.Ocp()
+                sts = []
+                for i, mth in enumerate(meths):
+                    st_ = ocp.stage(t0=0.5 * i, T=1.0 + 0.25 * i)
+                    sts.append((st_,) + c12.chain_stage(st_, mth, i == 0))
+                ocp.subject_to(sts[0][0].at_tf(sts[0][1]) == sts[1][0].at_t0(sts[1][1]))
+            ocp.solver("ipopt", hist.SOLVER_OPTS["A"])
+            r = P.Real(); r.ocp = ocp
+            tags += ["m=%s" % x for x in meths]
         else:
             m = multi.declare_multi(case["spec"])
             ocp = m.ocp
@@ -128,6 +151,14 @@ def run_case(case):
                     r.st.subject_to(P.apply_rel(P.CONS["x_le"](P.CA, r.pt, d))); d["cons"].append(c)
                 else:
                     ocp.solver("ipopt", hist.SOLVER_OPTS["A"])
+            spec_final = None
+            if pos == "after_update" and d is None and case["kind"] == "multi":
+                # a parameter of a sub-stage gets a new value after the solve
+                spec_final = copy.deepcopy(case["spec"])
+                for rr, sd in zip(m.reals, spec_final["stages"]):
+                    if rr.d["pg"] == "scalar":
+                        rr.st.set_value(rr.sym["pg"], 1.7)
+                        sd["d"].setdefault("pvals", {})["pg"] = 1.7
             if pos == "after_update" and d is not None:
                 if d["pg"] == "scalar":
                     r.st.set_value(r.sym["pg"], -0.8); d["pvals"]["pg"] = -0.8
@@ -153,6 +184,14 @@ def run_case(case):
             dl = hist.obs_equal(obs_loaded, obs_orig)
             if dl:
                 vios.append(dict(sig="loaded-differs:" + "+".join(dl), tags=tags, detail="loaded vs original at the solver: %s" % dl))
+            if d is None and case["kind"] == "multi" and pos == "after_update":
+                m2 = multi.declare_multi(spec_final)
+                m2.ocp.solver("ipopt", hist.SOLVER_OPTS["A"])
+                rf = P.Real(); rf.ocp = m2.ocp
+                fresh = hist.observe(rf)
+                df = hist.obs_equal(obs_loaded, fresh) if "error" not in fresh else ["fresh-error"]
+                if df:
+                    vios.append(dict(sig="loaded-stale:" + "+".join(df), tags=tags, detail="loaded OCP vs a fresh multi-stage OCP with the updated sub-stage parameter value: %s" % df))
             if d is not None:
                 fresh = hist.fresh_observation(d)
                 if "error" not in fresh:
@@ -179,13 +218,13 @@ def run_case(case):
                 vios.append(dict(sig="exception:accessor-update", tags=tags, detail="%s: %s" % (type(e).__name__, str(e)[:200])))
         oc = explore.sha([obs_loaded if "error" not in obs_loaded else None, [v["sig"] for v in vios]])
         return dict(violations=vios, evaluations=3, traces=2, transitions=4, outcome=oc, nontrivial=True,
-                    sample=dict(pos=pos, dev=case.get("dev"), d=_trans.compact(d) if d else case["spec"]["names"]))
+                    sample=dict(pos=pos, dev=case.get("dev"), d=_trans.compact(d) if d else (case["spec"]["names"] if "spec" in case else case.get("methods"))))
     finally:
         shutil.rmtree(tmp, ignore_errors=True)
 
 
 def describe(tier):
     return dict(
-        rule="program alphabet over %d feature dimensions (methods, integrators, grids incl. localized/free/density, horizon kinds, state shapes, DAE, global/per-interval parameters and variables, scaling, guesses incl. time expressions, solver option sets, constraint sets with offsets and grid options) at <=2 deviations, plus multi-stage programs (direct and cloned) x save position (before any transcription, after a query, after a solve, after post-transcription set_value/set_initial, after a solve followed by an invalidating edit, save-load twice): what the solver receives from the loaded OCP (rows, objective, start, parameters, solver settings) = from the original after saving = from a fresh OCP; accessor lists and shapes equal and in the same order; updates through the loaded OCP's accessor symbols have the same effect" % len(DIMS),
+        rule="program alphabet over %d feature dimensions (methods, integrators, grids incl. localized/free/density, horizon kinds, state shapes, DAE, global/per-interval parameters and variables, scaling, guesses incl. time expressions, solver option sets, constraint sets with offsets and grid options) at <=2 deviations, plus multi-stage programs (direct and cloned; a sub-stage parameter updated after the solve) and SplineMethod programs (alone and as a sub-stage) x save position (before any transcription, after a query, after a solve, after post-transcription set_value/set_initial, after a solve followed by an invalidating edit, save-load twice): what the solver receives from the loaded OCP (rows, objective, start, parameters, solver settings) = from the original after saving = from a fresh OCP; accessor lists and shapes equal and in the same order; updates through the loaded OCP's accessor symbols have the same effect" % len(DIMS),
         bound="k<=2 deviations x %s positions" % ("6" if tier == "thorough" else "2-6"),
         assumptions=["solver spy is 'what the solver receives'", "files are written to a per-case temp dir that is removed"])
